@@ -735,9 +735,7 @@ def execute(prop, scen):
     _ensure()
     res = RunResult()
     peers.reset()
-    from sktime.forecasting.base import ForecastingHorizon
-    ForecastingHorizon.to_relative.cache_clear()
-    ForecastingHorizon.to_absolute.cache_clear()
+    C.reset_caches()
     name = scen["cell"]
     fn, groups = CELLS[name]
     for g in groups:
